@@ -79,6 +79,8 @@ class Ctx:
             self.cats['fails_dropped_after_cap'] += 1
             return
         self.fails.append({
+            'index': self.evals - 1,
+            'shard': getattr(self, 'shard', None),
             'sub': self.sub,
             'case': self.case if case is None else case,
             'msg': msg,
@@ -132,6 +134,8 @@ def run_shard(args):
     skip = set(args[2]) if len(args) > 2 else ()
     mod = _load(prop)
     ctx = Ctx(prop, shard.get('sub'))
+    ctx.shard = shard
+    stop_after = args[3] if len(args) > 3 else None
     t0 = time.time()
     first = last = None
     mid = None
@@ -158,6 +162,8 @@ def run_shard(args):
                 ctx.fail(f'hang: the case did not finish within {HANG_SECONDS} s (termination)', hang=True)
             finally:
                 signal.setitimer(signal.ITIMER_REAL, 0)
+            if stop_after is not None and n - 1 >= stop_after:
+                break
     except Exception:
         signal.setitimer(signal.ITIMER_REAL, 0)
         return {'shard': shard, 'error': traceback.format_exc(), 'case': _j(ctx.case)}
@@ -332,6 +338,27 @@ def reproduce(prop, f):
     return True, ''
 
 
+def reproduce_in_history(prop, f):
+    """A failure that does not reproduce from its case alone may depend on the calls made
+    before it (shared mutable state in the library).  Re-run the shard up to that case in a
+    fresh process: if the same failure appears again it is deterministic given the history,
+    i.e. a genuine violation whose replay is the shard prefix."""
+    if f.get('shard') is None or f.get('index') is None:
+        return False
+    ctxmp = multiprocessing.get_context('spawn')     # a really fresh interpreter, no inherited library state
+    with ctxmp.Pool(1, initializer=_init_worker) as pool:
+        r = pool.apply(run_shard, ((prop, f['shard']),))
+    if 'error' in r:
+        return False
+    # the worker that found it had also run other shards before, so the index may differ:
+    # the same failure message anywhere in a fresh run of the shard counts
+    for x in r['fails']:
+        if x['msg'] == f['msg']:
+            f['case'], f['index'], f['expected'], f['observed'] = x['case'], x['index'], x['expected'], x['observed']
+            return True
+    return False
+
+
 def write_replay(prop, f):
     d = os.path.join(VERIF, 'replays', prop)
     os.makedirs(d, exist_ok=True)
@@ -339,6 +366,7 @@ def write_replay(prop, f):
     path = os.path.join(d, h + '.json')
     with open(path, 'w', encoding='utf-8') as fh:
         json.dump({'property': prop, 'sub': f['sub'], 'case': f['case'], 'message': f['msg'],
+                   'history_dependent': bool(f.get('history_dependent')), 'shard': f.get('shard'), 'index': f.get('index'),
                    'expected': f['expected'], 'observed': f['observed'],
                    'repro_python': f.get('repro')}, fh, indent=1, ensure_ascii=True)
     return path
@@ -437,8 +465,12 @@ def main(argv=None):
                 continue
         ok, why = (True, '') if f.get('hang') else reproduce(prop, f)
         if not ok:
-            harness_errors.append((f, why))
-            continue
+            if reproduce_in_history(prop, f):
+                f['history_dependent'] = True
+                f['msg'] += ' | history-dependent: passes on a fresh interpreter, fails (reproducibly) after the preceding cases of its shard'
+            else:
+                harness_errors.append((f, why))
+                continue
         violations.append(f)
 
     wall = time.time() - t0
@@ -501,6 +533,18 @@ def main(argv=None):
 
 def replay_file(prop, mod, path):
     d = json.load(open(path, encoding='utf-8'))
+    if d.get('history_dependent'):
+        r = run_shard((prop, d['shard'], (), d['index']))
+        hits = [x for x in r.get('fails', []) if x['index'] == d['index']]
+        if 'error' in r:
+            print(r['error'])
+            return 3
+        if hits:
+            print(f'VIOLATION property={prop} replay={path}')
+            print(f'  [{hits[0]["sub"]}] {hits[0]["msg"]} (after replaying the {d["index"]} preceding cases of its shard)')
+            return 1
+        print(f'{prop}: replay of {path} passes')
+        return 0
     ctx = Ctx(prop, d.get('sub'))
     ctx.case = d['case']
     mod.check(d['case'], ctx)
